@@ -10,6 +10,7 @@ package gortsplib
 
 import (
 	"fmt"
+	"net"
 	"strconv"
 	"strings"
 	"testing"
@@ -137,5 +138,48 @@ func TestBoundedC20(t *testing.T) {
 	fmt.Printf("BOUNDED-CASES family=URLFidelity cases=%d failures=%d\n", cases, fails)
 	if fails > 0 {
 		t.Errorf("URLFidelity: %d failing cases", fails)
+	}
+}
+
+// Bounded stand-in for the server's UDP dispatch key (C19; clientAddr.fill writes through slices of an
+// array embedded in a struct, which the verifier's heap model abstracts): NOT a proof.
+// Two source addresses get the same dispatch key exactly when they are the same IP (net.IP.Equal) and
+// port, for every pair of a grid of 4-byte, IPv4-mapped, IPv4-compatible and IPv6 addresses.
+func TestBoundedC19(t *testing.T) {
+	cases, fails := 0, 0
+	fail := func(input, detail string) {
+		fails++
+		if fails <= 3 {
+			fmt.Printf("BOUNDED-FAIL family=DispatchKey input=%s detail=%s\n", input, detail)
+		}
+	}
+	var ips []net.IP
+	for _, q := range [][4]byte{{127, 0, 0, 1}, {1, 2, 3, 4}, {0, 0, 0, 1}, {255, 255, 255, 255}, {10, 0, 0, 255}} {
+		ips = append(ips, net.IP{q[0], q[1], q[2], q[3]})                                     // 4-byte form
+		ips = append(ips, net.IPv4(q[0], q[1], q[2], q[3]))                                   // IPv4-mapped, 16 bytes
+		ips = append(ips, net.IP{0, 0, 0, 0, 0, 0, 0, 0, 0, 0, 0, 0, q[0], q[1], q[2], q[3]}) // IPv4-compatible (another address)
+		ips = append(ips, net.IP{0x20, 0x01, 0xd, 0xb8, 0, 0, 0, 0, 0, 0, 0xff, 0xff, q[0], q[1], q[2], q[3]})
+	}
+	ips = append(ips, net.ParseIP("::1"), net.ParseIP("fe80::1"), net.ParseIP("::ffff:0:0"), net.ParseIP("::"))
+	ports := []int{0, 1, 5000, 65535}
+	for _, a := range ips {
+		for _, b := range ips {
+			for _, pa := range ports {
+				for _, pb := range ports {
+					cases++
+					var ka, kb clientAddr
+					ka.fill(a, pa)
+					kb.fill(b, pb)
+					same := a.Equal(b) && pa == pb
+					if (ka == kb) != same {
+						fail(fmt.Sprintf("%v(%d bytes):%d vs %v(%d bytes):%d", a, len(a), pa, b, len(b), pb), fmt.Sprintf("keys equal=%v, addresses equal=%v", ka == kb, same))
+					}
+				}
+			}
+		}
+	}
+	fmt.Printf("BOUNDED-CASES family=DispatchKey cases=%d failures=%d\n", cases, fails)
+	if fails > 0 {
+		t.Errorf("DispatchKey: %d failing cases", fails)
 	}
 }
